@@ -49,6 +49,10 @@ fn refused_predecessors(number: u16, d: &Message) -> Vec<Message> {
         if let Some(v) = c.get(&number) {
             return v.clone();
         }
+        // wait for a list with a tail to derive late refusals from
+        if vtree::to_v(d).ok().and_then(|v| first_seq_len(&v)).unwrap_or(0) < 2 {
+            return Vec::new();
+        }
         let mut out: Vec<Message> = Vec::new();
         let mut rng = Rng::derive(0xC15, "refused", number as u64);
         let mut p = vec![0xFFu8; 1023];
@@ -58,6 +62,17 @@ fn refused_predecessors(number: u16, d: &Message) -> Vec<Message> {
             cands.push(m);
         }
         if let Ok(v) = vtree::to_v(d) {
+            // refused late: one of the last numeric leaves (the tail of the list) pushed out of range
+            let total = crate::mutate::count_numeric(&mut v.clone());
+            for back in 0..total.min(24) {
+                for high in [true, false] {
+                    let mut mv = v.clone();
+                    crate::mutate::extreme_leaf(&mut mv, total - 1 - back, high);
+                    if let Ok(Ok(m)) = crate::mon::guard(|| vtree::from_v::<Message>(&mv)) {
+                        cands.push(m);
+                    }
+                }
+            }
             let mut tpl = crate::mutate::Templates::default();
             tpl.learn(&v);
             for _ in 0..200 {
